@@ -123,7 +123,8 @@ type Scenario struct {
 	Threads []Thread
 	NCtx    int
 	FailAt  int // 1-based index of the transport write/writev call that fails (0 = none)
-	Buffered int // > 0: the library's write-buffered transport of this size over a connection under the controller
+	Buffered int // > 0: the library's write-buffered transport of this size over a connection under the controller; -1: its unbuffered wrapper
+	Big      bool
 	conn    *ctlConn
 }
 
@@ -174,9 +175,13 @@ func runScenario(sc *Scenario, strat rt.Strategy) *rt.Controller {
 	}
 	tr.OnCall = onCall
 	var trx transport.Transport = tr
-	if sc.Buffered > 0 {
+	if sc.Buffered != 0 {
 		sc.conn = &ctlConn{c: c}
-		trx = &loggedTransport{Transport: transport.NewTransport(sc.conn, 0, sc.Buffered), onCall: onCall}
+		size := sc.Buffered
+		if size < 0 {
+			size = 0
+		}
+		trx = &loggedTransport{Transport: transport.NewTransport(sc.conn, 0, size), onCall: onCall}
 	}
 	pl := netty.NewPipeline()
 	var ch netty.Channel
@@ -309,7 +314,7 @@ func runScenario(sc *Scenario, strat rt.Strategy) *rt.Controller {
 }
 
 func printRun(prop string, sc *Scenario, c *rt.Controller) {
-	if sc.Buffered > 0 {
+	if sc.Buffered != 0 {
 		emit("%s cfg %d %d %d buf%d", prop, b2i(sc.Sync), sc.Qcap, b2i(sc.Until), sc.Buffered)
 	} else {
 		emit("%s cfg %d %d %d", prop, b2i(sc.Sync), sc.Qcap, b2i(sc.Until))
